@@ -28,6 +28,8 @@ pub struct Case {
     pub ccr: u8,
     pub patches: Small<(u32, u8), 24>,
     pub check_cycles: bool,
+    /// larger memory image (programs): (address, bytes) blocks poked before the run
+    pub image: Vec<(u32, Vec<u8>)>,
 }
 
 impl Case {
@@ -42,6 +44,7 @@ impl Case {
             ccr: 0,
             patches: Small::new(),
             check_cycles: false,
+            image: Vec::new(),
         };
         c.code[..code.len()].copy_from_slice(code);
         // benign padding after the instruction: BRN-like words would be "implemented"; use 0xffff-free
@@ -71,6 +74,7 @@ impl Case {
             "ccr": format!("{:02x}", self.ccr),
             "patches": self.patches.as_slice().iter().map(|(a, v)| format!("{:06x}={:02x}", a, v)).collect::<Vec<_>>(),
             "check_cycles": self.check_cycles,
+            "image": self.image.iter().map(|(a, b)| format!("{:06x}:{}", a, hex(b))).collect::<Vec<_>>(),
         })
     }
     pub fn from_json(v: &Value) -> Option<Case> {
@@ -90,6 +94,12 @@ impl Case {
             c.patches.push((u32::from_str_radix(a, 16).ok()?, u8::from_str_radix(b, 16).ok()?));
         }
         c.check_cycles = v["check_cycles"].as_bool().unwrap_or(false);
+        if let Some(img) = v["image"].as_array() {
+            for b in img {
+                let (a, h) = b.as_str()?.split_once(':')?;
+                c.image.push((u32::from_str_radix(a, 16).ok()?, unhex(h)?));
+            }
+        }
         Some(c)
     }
 }
@@ -396,7 +406,7 @@ impl Ctx {
             Kind::Step => {
                 // sticky code that no patch of this case can have touched: reuse the decode
                 let key = (c.pc, self.m.sticky_gen);
-                let dec = if c.code_sticky && c.patches.n == 0 && key == self.last_key {
+                let dec = if c.code_sticky && c.patches.n == 0 && c.image.is_empty() && key == self.last_key {
                     self.last_dec
                 } else {
                     let mut bytes = [0u8; 12];
@@ -539,6 +549,10 @@ impl Ctx {
         }
         for &(a, v) in c.patches.as_slice() {
             self.m.poke(a, v);
+        }
+        for k in 0..c.image.len() {
+            let (a, ref b) = c.image[k];
+            self.m.poke_bytes(a, b);
         }
         // ---- reference (reads the real pre-state memory)
         let none = Defects::default();
@@ -792,4 +806,252 @@ pub fn panic_explained_fetch(ro: &RefOut, act: &Actual) -> bool {
 
 pub fn cyc_text(ro: &RefOut) -> String {
     ro.cyc.as_slice().iter().map(|e| format!("{:?}{}@{:06x}", e.kind, e.count, e.addr)).collect::<Vec<_>>().join(" ")
+}
+
+// =====================================================================================
+// Sequences: programs stepped in lock step with the reference (engine E2, step level)
+// =====================================================================================
+
+/// What the harness does at one boundary of a sequence.
+#[derive(Clone, Copy, PartialEq, Eq, Debug)]
+pub enum Act {
+    /// execute the instruction at PC
+    Step,
+    /// request interrupt `v` and let the CPU try to accept it (nothing else happens at this boundary)
+    Irq(u8),
+}
+
+/// Observation handed to the per-step callback of `run_seq`.
+pub struct StepObs<'a> {
+    pub index: usize,
+    pub act: Act,
+    pub pre_pc: u32,
+    pub pre_er: [u32; 8],
+    pub pre_ccr: u8,
+    pub dec: Decoded,
+    pub ro: &'a RefOut,
+    pub actual: &'a Actual,
+    pub post_pc: u32,
+    pub post_er: [u32; 8],
+    pub post_ccr: u8,
+    pub m: &'a Mach,
+}
+
+pub enum Next {
+    Continue(Act),
+    Stop,
+    /// the callback found a violation of its own (differential / trace oracle)
+    Fail(String),
+}
+
+impl Ctx {
+    fn seq_violation(&mut self, what: String, init: &Case, trace: &[String], ro: Option<&RefOut>, act: Option<&Actual>) {
+        if self.frozen {
+            return;
+        }
+        self.st.violations_total += 1;
+        if self.st.violations.len() < MAX_VIOLATIONS_KEPT {
+            let mut case = init.to_json();
+            case["sequence"] = json!(trace);
+            let expected = ro.map(|r| self.expected_json(r)).unwrap_or(json!(null));
+            let actual = match (ro, act) {
+                (Some(r), Some(a)) => self.actual_json(r, a),
+                _ => json!(null),
+            };
+            self.st.violations.push(Violation { unit: self.unit.clone(), what, case, expected, actual });
+        }
+        if self.st.violations_total >= MAX_VIOLATIONS_PER_UNIT {
+            self.stop = true;
+        }
+    }
+
+    /// Run a whole program / history in lock step with the reference.  `init` supplies the memory image
+    /// (code bytes at `pc` + patches), registers, CCR and start PC; `first` is the first action; after
+    /// every action `next` decides how to go on.  Memory written during the run is restored at the end.
+    /// Returns the number of actions performed.
+    pub fn run_seq(&mut self, init: &Case, first: Act, max_actions: usize, next: &mut dyn FnMut(&StepObs) -> Next) -> usize {
+        if self.stop {
+            return 0;
+        }
+        if !init.code_sticky && init.code_len > 0 {
+            let n = init.code_len as usize;
+            let code = init.code;
+            self.m.poke_bytes(init.pc, &code[..n]);
+        }
+        for &(a, v) in init.patches.as_slice() {
+            self.m.poke(a, v);
+        }
+        for k in 0..init.image.len() {
+            let (a, ref b) = init.image[k];
+            self.m.poke_bytes(a, b);
+        }
+        self.run_seq_body(init, first, max_actions, next)
+    }
+
+    /// Same, for images too large for `Case::patches`: the caller has already poked the image.
+    pub fn run_seq_body(&mut self, init: &Case, first: Act, max_actions: usize, next: &mut dyn FnMut(&StepObs) -> Next) -> usize {
+        let none = Defects::default();
+        {
+            let cpu = &mut self.m.cpu;
+            cpu.er = init.er;
+            cpu.vh_set_pc(init.pc);
+            cpu.vh_set_ccr(init.ccr);
+            cpu.vh_clear_pending_interrupts();
+        }
+        let mut trace: Vec<String> = Vec::new();
+        let mut act = first;
+        let mut done = 0usize;
+        while done < max_actions {
+            let pre_pc = self.m.cpu.vh_pc();
+            let pre_er = self.m.cpu.er;
+            let pre_ccr = self.m.cpu.vh_ccr();
+            let mut c = Case::new(pre_pc, &[]);
+            c.code_len = 0;
+            c.code_sticky = true;
+            c.er = pre_er;
+            c.ccr = pre_ccr;
+            c.kind = match act {
+                Act::Step => Kind::Step,
+                Act::Irq(v) => Kind::Irq(v),
+            };
+            // force a fresh decode: code may differ from the previous sequence at the same PC
+            self.last_key = (0xffff_ffff, 0);
+            let (dec, ro) = self.reference(&c, &none);
+            for w in ro.writes.as_slice() {
+                self.m.expect_write_pre(w.addr);
+            }
+            let actual = self.execute(&c);
+            let mut diff = self.compare(&c, &ro, &actual);
+            let mut ro_eff = ro.clone();
+            if diff.is_some() && !self.known_keys.is_empty() {
+                let keys = self.known_keys.clone();
+                for k in keys.iter() {
+                    let d = Defects::from_keys(&[k.as_str()]);
+                    if d.fetch_unwrap {
+                        continue;
+                    }
+                    let (_, ro2) = self.reference(&c, &d);
+                    if self.compare(&c, &ro2, &actual).is_none() {
+                        if !self.frozen {
+                            let first = json!({"case": c.to_json(), "what": diff.as_ref().unwrap().what});
+                            let e = self.st.known.entry(k.clone()).or_insert((0, first));
+                            e.0 += 1;
+                        }
+                        for w in ro2.writes.as_slice() {
+                            self.m.mark_dirty(w.addr);
+                        }
+                        ro_eff = ro2;
+                        diff = None;
+                        break;
+                    }
+                }
+            }
+            trace.push(match act {
+                Act::Step => format!("{:06x}:step", pre_pc),
+                Act::Irq(v) => format!("{:06x}:irq{}", pre_pc, v),
+            });
+            if !self.frozen {
+                self.st.cases += 1;
+                match ro.class {
+                    Class::Ok => {
+                        self.st.exp_ok += 1;
+                        if ro.taken {
+                            self.st.nontrivial += 1;
+                        }
+                    }
+                    Class::Err => {
+                        self.st.exp_err += 1;
+                        self.st.nontrivial += 1;
+                    }
+                    Class::Any => self.st.exp_any += 1,
+                }
+                match &actual {
+                    Actual::Ok(_) => self.st.act_ok += 1,
+                    Actual::Err(_) => self.st.act_err += 1,
+                    Actual::Panic(_) => self.st.act_panic += 1,
+                }
+                if let Decoded::Impl { row, .. } = dec {
+                    self.st.form_counts[row] += 1;
+                }
+                let cpu = &self.m.cpu;
+                let mut h: u64 = 0xcbf29ce484222325;
+                for k in 0..8 {
+                    h = (h ^ cpu.er[k] as u64).wrapping_mul(0x100000001b3);
+                }
+                h = (h ^ cpu.vh_ccr() as u64).wrapping_mul(0x100000001b3);
+                h = (h ^ cpu.vh_pc() as u64).wrapping_mul(0x100000001b3);
+                h ^= h >> 29;
+                let bit = (h & 0xffff) as usize;
+                self.st.outcome_bits[bit / 64] |= 1u64 << (bit % 64);
+            }
+            for w in ro_eff.writes.as_slice() {
+                self.m.accept(w.addr);
+            }
+            // stray writes (exact, through the Bus::write log)
+            let open = ro_eff.class == Class::Any && ro_eff.mem_open;
+            let mut stray: Option<(u32, u8, u8)> = None;
+            for k in 0..self.wlog.len() {
+                let a = self.wlog[k];
+                if ro_eff.writes.as_slice().iter().any(|w| w.addr == a) {
+                    continue;
+                }
+                let got = self.m.peek(a);
+                let exp = self.m.peek_shadow(a);
+                if got.is_none() || got == exp {
+                    continue;
+                }
+                if !open && stray.is_none() {
+                    stray = Some((a, got.unwrap_or(0), exp.unwrap_or(0)));
+                }
+                let v = exp.unwrap_or(0);
+                if let Some(s) = self.m.real_slot(a) {
+                    *s = v;
+                }
+            }
+            done += 1;
+            if let Some(d) = diff {
+                self.seq_violation(format!("step {}: {}", done - 1, d.what), init, &trace, Some(&ro), Some(&actual));
+                break;
+            }
+            if let Some((a, got, exp)) = stray {
+                self.seq_violation(format!("step {}: stray memory write: [{:06x}] is {:02x}, must stay {:02x}", done - 1, a, got, exp), init, &trace, Some(&ro), Some(&actual));
+                break;
+            }
+            if ro.class != Class::Ok || !matches!(actual, Actual::Ok(_)) {
+                // an error or an open outcome ends the lock step (nothing further is defined)
+                let obs = StepObs { index: done - 1, act, pre_pc, pre_er, pre_ccr, dec, ro: &ro, actual: &actual, post_pc: self.m.cpu.vh_pc(), post_er: self.m.cpu.er, post_ccr: self.m.cpu.vh_ccr(), m: &self.m };
+                if let Next::Fail(msg) = next(&obs) {
+                    self.seq_violation(msg, init, &trace, Some(&ro), Some(&actual));
+                }
+                break;
+            }
+            let obs = StepObs { index: done - 1, act, pre_pc, pre_er, pre_ccr, dec, ro: &ro, actual: &actual, post_pc: self.m.cpu.vh_pc(), post_er: self.m.cpu.er, post_ccr: self.m.cpu.vh_ccr(), m: &self.m };
+            match next(&obs) {
+                Next::Continue(a) => act = a,
+                Next::Stop => break,
+                Next::Fail(msg) => {
+                    self.seq_violation(msg, init, &trace, Some(&ro), Some(&actual));
+                    break;
+                }
+            }
+        }
+        if !self.frozen && self.st.samples.len() < self.want_samples && done > 2 {
+            let mut s = init.to_json();
+            s["unit"] = json!(self.unit);
+            s["sequence"] = json!(trace);
+            self.st.samples.push(s);
+        }
+        self.m.cpu.vh_clear_pending_interrupts();
+        self.since_full += done as u64;
+        if self.paranoid {
+            if self.m.full_compare().is_some() {
+                self.seq_violation("memory differs from the reference image after the sequence (write that bypassed Bus::write)".into(), init, &trace, None, None);
+                self.m.resync_from_shadow();
+            }
+        } else if self.m.stray.is_some() || self.since_full >= FULL_COMPARE_EVERY {
+            self.checkpoint();
+        }
+        self.m.restore();
+        done
+    }
 }
